@@ -210,3 +210,319 @@ Proof.
   - rewrite union_any, orb_true_iff. tauto.
   - destruct Hp; [exact IH|]. split; [discriminate|]. intros H0. apply IH in H0. discriminate.
 Qed.
+(* ---- well-formed ranges (lo <= hi): "inclusive ranges" -------------------------- *)
+Definition wf (s : vstate) : Prop := Forall (fun r => fst r <= snd r) (vs_ranges s).
+Definition wf_vs (a : vset) : Prop := match a with Any => True | VS s => wf s end.
+
+Lemma merge_pass_wf rs : forall lo hi l h kept,
+  merge_pass rs lo hi = (l, h, kept) -> lo <= hi -> Forall (fun r => fst r <= snd r) rs ->
+  l <= h /\ Forall (fun r => fst r <= snd r) kept.
+Proof.
+  induction rs as [|[ol oh] rest IH]; intros lo hi l h kept Hm Hle Hrs; cbn [merge_pass] in Hm.
+  - inversion Hm; subst. auto.
+  - inversion Hrs as [|x y Hx Hrest]; subst. cbn [fst snd] in Hx.
+    destruct ((lo <=? oh) && (ol <=? hi)) eqn:E.
+    + apply (IH _ _ _ _ _ Hm); [lia|exact Hrest].
+    + destruct (merge_pass rest lo hi) as [[l' h'] k'] eqn:E2. inversion Hm; subst.
+      destruct (IH _ _ _ _ _ E2 Hle Hrest) as [H1 H2]. split; [exact H1|constructor; [exact Hx|exact H2]].
+Qed.
+
+Lemma add_value_wf s v : wf s -> wf (add_value s v).
+Proof. unfold add_value, wf. destruct (st_contains s v); auto. Qed.
+
+Lemma add_range_wf s lo hi : lo <= hi -> wf s -> wf (add_range s lo hi).
+Proof.
+  unfold add_range, wf. intros Hle Hs.
+  destruct (merge_pass (vs_ranges s) lo hi) as [[l h] kept] eqn:E.
+  destruct (merge_pass_wf _ _ _ _ _ _ E Hle Hs) as [H1 H2].
+  cbn [vs_ranges]. unfold range_set_add. destruct (rmem (l, h) kept); [exact H2|constructor; [exact H1|exact H2]].
+Qed.
+
+Lemma fold_add_value_wf l : forall s, wf s -> wf (fold_left add_value l s).
+Proof. induction l as [|x l IH]; intros s Hs; cbn [fold_left]; [exact Hs|apply IH, add_value_wf, Hs]. Qed.
+
+Lemma fold_add_range_wf l : forall s, Forall (fun r => fst r <= snd r) l -> wf s ->
+  wf (fold_left (fun s r => add_range s (fst r) (snd r)) l s).
+Proof.
+  induction l as [|r l IH]; intros s Hl Hs; cbn [fold_left]; [exact Hs|].
+  inversion Hl; subst. apply IH; [assumption|apply add_range_wf; assumption].
+Qed.
+
+Lemma st_union_wf a b : wf a -> wf b -> wf (st_union a b).
+Proof.
+  intros Ha Hb. unfold st_union.
+  apply fold_add_range_wf; [exact Hb|]. apply fold_add_range_wf; [exact Ha|].
+  apply fold_add_value_wf, fold_add_value_wf. constructor.
+Qed.
+
+Fixpoint expr_wf (e : vexpr) : Prop :=
+  match e with
+  | EEmpty | EAny => True
+  | EAddV e _ => expr_wf e
+  | EAddR e lo hi => expr_wf e /\ lo <= hi
+  | EUnion a b => expr_wf a /\ expr_wf b
+  end.
+
+Lemma builds_wf e a : builds e a -> expr_wf e -> wf_vs a.
+Proof.
+  intros Hb. induction Hb as [| |e a x Hb IH|e a lo hi Hb IH|ea eb a b Ha IHa Hb IHb|e a a' Hb IH Hp];
+    cbn [expr_wf]; intros Hw.
+  - constructor.
+  - exact I.
+  - destruct a; cbn; [apply add_value_wf, IH, Hw|exact I].
+  - destruct a; cbn; [apply add_range_wf; [apply Hw|apply IH, Hw]|exact I].
+  - destruct a, b; cbn; try exact I. apply st_union_wf; [apply IHa, Hw|apply IHb, Hw].
+  - specialize (IH Hw). destruct Hp as [|s s' [_ Hr]]; [exact I|]. cbn in *. unfold wf in *.
+    eapply Permutation_Forall; eassumption.
+Qed.
+
+(* ---- is_disjoint ------------------------------------------------------------------ *)
+Lemma st_disjoint_correct a b : wf a -> wf b ->
+  (st_disjoint a b = true <-> forall v, ~ (st_contains a v = true /\ st_contains b v = true)).
+Proof.
+  intros Ha Hb. unfold st_disjoint. rewrite !andb_true_iff, !forallb_forall. split.
+  - intros [[[H1 H2] H3] H4] v [Hca Hcb].
+    pose proof Hca as Hca'. pose proof Hcb as Hcb'.
+    apply st_contains_spec in Hca. apply st_contains_spec in Hcb.
+    destruct Hca as [Hva|[ra [Hra Hia]]].
+    { specialize (H1 v Hva). rewrite Hcb' in H1. discriminate. }
+    destruct Hcb as [Hvb|[rb [Hrb Hib]]].
+    { specialize (H2 v Hvb). rewrite Hca' in H2. discriminate. }
+    destruct (Z_le_dec (fst rb) (fst ra)) as [Hle|Hgt].
+    + specialize (H3 ra Hra). apply andb_true_iff in H3. destruct H3 as [H3 _].
+      assert (Hc : st_contains b (fst ra) = true)
+        by (apply st_contains_spec; right; exists rb; split; [exact Hrb|lia]).
+      rewrite Hc in H3. discriminate.
+    + specialize (H4 rb Hrb). apply andb_true_iff in H4. destruct H4 as [H4 _].
+      assert (Hc : st_contains a (fst rb) = true)
+        by (apply st_contains_spec; right; exists ra; split; [exact Hra|lia]).
+      rewrite Hc in H4. discriminate.
+  - intros H.
+    assert (Hin : forall s r, wf s -> In r (vs_ranges s) ->
+              st_contains s (fst r) = true /\ st_contains s (snd r) = true).
+    { intros s r Hs Hr. unfold wf in Hs. rewrite Forall_forall in Hs. specialize (Hs r Hr).
+      split; apply st_contains_spec; right; exists r; (split; [exact Hr|lia]). }
+    assert (Hv : forall s x, In x (vs_values s) -> st_contains s x = true).
+    { intros s x Hx. apply st_contains_spec. left. exact Hx. }
+    repeat split.
+    + intros x Hx. destruct (st_contains b x) eqn:E; [exfalso; apply (H x); split; [apply Hv, Hx|exact E]|reflexivity].
+    + intros x Hx. destruct (st_contains a x) eqn:E; [exfalso; apply (H x); split; [exact E|apply Hv, Hx]|reflexivity].
+    + intros r Hr. destruct (Hin a r Ha Hr) as [Hf Hs].
+      destruct (st_contains b (fst r)) eqn:E1; [exfalso; apply (H (fst r)); auto|].
+      destruct (st_contains b (snd r)) eqn:E2; [exfalso; apply (H (snd r)); auto|]. reflexivity.
+    + intros r Hr. destruct (Hin b r Hb Hr) as [Hf Hs].
+      destruct (st_contains a (fst r)) eqn:E1; [exfalso; apply (H (fst r)); auto|].
+      destruct (st_contains a (snd r)) eqn:E2; [exfalso; apply (H (snd r)); auto|]. reflexivity.
+Qed.
+
+Lemma st_is_empty_correct s : wf s -> (st_is_empty s = true <-> forall v, st_contains s v = false).
+Proof.
+  intros Hs. unfold st_is_empty. destruct s as [vals rs]. cbn [vs_values vs_ranges]. split.
+  - destruct vals, rs; try discriminate. intros _ v. reflexivity.
+  - intros H. destruct vals as [|x vals].
+    + destruct rs as [|r rs]; [reflexivity|]. exfalso.
+      unfold wf in Hs. cbn in Hs. inversion Hs; subst.
+      specialize (H (fst r)). assert (Hc : st_contains (mkVS [] (r :: rs)) (fst r) = true)
+        by (apply st_contains_spec; right; exists r; split; [left; reflexivity|lia]).
+      rewrite Hc in H. discriminate.
+    + exfalso. specialize (H x).
+      assert (Hc : st_contains (mkVS (x :: vals) rs) x = true)
+        by (apply st_contains_spec; left; left; reflexivity).
+      rewrite Hc in H. discriminate.
+Qed.
+
+Theorem disjoint_correct a b : wf_vs a -> wf_vs b ->
+  (is_disjoint a b = true <-> ~ exists v, contains a v = true /\ contains b v = true).
+Proof.
+  intros Ha Hb. destruct a as [sa|], b as [sb|]; cbn [is_disjoint contains wf_vs] in *.
+  - rewrite (st_disjoint_correct sa sb Ha Hb). split.
+    + intros H [v Hv]. exact (H v Hv).
+    + intros H v Hv. apply H. exists v. exact Hv.
+  - rewrite (st_is_empty_correct sa Ha). split.
+    + intros H [v [Hv _]]. rewrite H in Hv. discriminate.
+    + intros H v. destruct (st_contains sa v) eqn:E; [exfalso; apply H; exists v; auto|reflexivity].
+  - rewrite (st_is_empty_correct sb Hb). split.
+    + intros H [v [_ Hv]]. rewrite H in Hv. discriminate.
+    + intros H v. destruct (st_contains sb v) eqn:E; [exfalso; apply H; exists v; auto|reflexivity].
+  - split; [discriminate|]. intros H. exfalso. apply H. exists 0. auto.
+Qed.
+
+(* what an inverted range does: it holds nothing, yet is_disjoint looks at its end points *)
+Lemma disjoint_inverted_witness :
+  let a := build (EAddR EEmpty 5 3) in
+  let b := build (EAddV EEmpty 5) in
+  is_disjoint a b = false /\ is_disjoint b a = false /\ is_disjoint a Any = false
+  /\ forall v, contains a v = false.
+Proof.
+  cbn. repeat split. intros v. unfold st_contains. cbn. unfold in_range. cbn [fst snd]. lia.
+Qed.
+
+(* ---- representation invariant: the single merging pass is enough ----------------- *)
+(* the overlap test of add_range, negated *)
+Definition no_overlap (a b : Z * Z) : Prop := ~ (fst a <= snd b /\ fst b <= snd a).
+
+Definition pairwise_apart (rs : list (Z * Z)) : Prop :=
+  NoDup rs /\ forall r1 r2, In r1 rs -> In r2 rs -> r1 <> r2 -> no_overlap r1 r2.
+
+(* ranges lo <= hi, duplicate free, pairwise non-overlapping; no listed value inside a range *)
+Definition inv (s : vstate) : Prop :=
+  wf s /\ NoDup (vs_values s) /\ pairwise_apart (vs_ranges s)
+  /\ forall v, In v (vs_values s) -> ~ in_ranges v (vs_ranges s).
+Definition inv_vs (a : vset) : Prop := match a with Any => True | VS s => inv s end.
+
+Lemma merge_pass_kept rs : forall lo hi l h kept,
+  merge_pass rs lo hi = (l, h, kept) -> (forall r, In r kept -> In r rs) /\ (NoDup rs -> NoDup kept).
+Proof.
+  induction rs as [|[ol oh] rest IH]; intros lo hi l h kept Hm; cbn [merge_pass] in Hm.
+  - inversion Hm; subst. split; [auto|auto].
+  - destruct ((lo <=? oh) && (ol <=? hi)).
+    + destruct (IH _ _ _ _ _ Hm) as [H1 H2]. split.
+      * intros r Hr. right. apply H1, Hr.
+      * intros Hnd. inversion Hnd; subst. apply H2. assumption.
+    + destruct (merge_pass rest lo hi) as [[l' h'] k'] eqn:E2. inversion Hm; subst.
+      destruct (IH _ _ _ _ _ E2) as [H1 H2]. split.
+      * intros r [<-|Hr]; [left; reflexivity|right; apply H1, Hr].
+      * intros Hnd. inversion Hnd as [|x y Hx Hr]; subst. constructor; [|apply H2, Hr].
+        intros Hin. apply Hx, H1, Hin.
+Qed.
+
+(* an interval apart from the new range and from every existing range is apart from the merged range *)
+Lemma merge_pass_avoid q rs : forall lo hi l h kept,
+  merge_pass rs lo hi = (l, h, kept) ->
+  fst q <= snd q -> lo <= hi -> Forall (fun r => fst r <= snd r) rs ->
+  no_overlap q (lo, hi) -> Forall (no_overlap q) rs -> no_overlap q (l, h).
+Proof.
+  induction rs as [|[ol oh] rest IH]; intros lo hi l h kept Hm Hq Hle Hwf Hq0 Hqr; cbn [merge_pass] in Hm.
+  - inversion Hm; subst. exact Hq0.
+  - inversion Hwf as [|x y Hx Hwf']; subst. inversion Hqr as [|x y Hqx Hqr']; subst.
+    cbn [fst snd] in Hx. destruct ((lo <=? oh) && (ol <=? hi)) eqn:E.
+    + apply (IH _ _ _ _ _ Hm Hq); [lia|exact Hwf'| |exact Hqr'].
+      unfold no_overlap in *. cbn [fst snd] in *. lia.
+    + destruct (merge_pass rest lo hi) as [[l' h'] k'] eqn:E2. inversion Hm; subst.
+      apply (IH _ _ _ _ _ E2 Hq Hle Hwf' Hq0 Hqr').
+Qed.
+
+Lemma merge_pass_apart rs : forall lo hi l h kept,
+  merge_pass rs lo hi = (l, h, kept) ->
+  lo <= hi -> Forall (fun r => fst r <= snd r) rs -> pairwise_apart rs ->
+  Forall (fun r => no_overlap r (l, h)) kept.
+Proof.
+  induction rs as [|[ol oh] rest IH]; intros lo hi l h kept Hm Hle Hwf Hpw; cbn [merge_pass] in Hm.
+  - inversion Hm; subst. constructor.
+  - inversion Hwf as [|x y Hx Hwf']; subst. cbn [fst snd] in Hx.
+    destruct Hpw as [Hnd Hpw]. inversion Hnd as [|x y Hnin Hnd']; subst.
+    assert (Hpw' : pairwise_apart rest).
+    { split; [exact Hnd'|]. intros r1 r2 H1 H2 Hne. apply Hpw; [right; exact H1|right; exact H2|exact Hne]. }
+    destruct ((lo <=? oh) && (ol <=? hi)) eqn:E.
+    + apply (IH _ _ _ _ _ Hm); [lia|exact Hwf'|exact Hpw'].
+    + destruct (merge_pass rest lo hi) as [[l' h'] k'] eqn:E2. inversion Hm; subst.
+      constructor; [|apply (IH _ _ _ _ _ E2 Hle Hwf' Hpw')].
+      apply (merge_pass_avoid (ol, oh) rest _ _ _ _ _ E2); [exact Hx|exact Hle|exact Hwf'| |].
+      * unfold no_overlap. cbn [fst snd]. lia.
+      * apply Forall_forall. intros r Hr. apply Hpw; [left; reflexivity|right; exact Hr|].
+        intros Heq. apply Hnin. rewrite Heq. exact Hr.
+Qed.
+
+Lemma no_overlap_sym a b : no_overlap a b -> no_overlap b a.
+Proof. unfold no_overlap. tauto. Qed.
+
+Lemma add_value_inv s v : inv s -> inv (add_value s v).
+Proof.
+  intros [Hw [Hv [Hp Hout]]]. unfold add_value. destruct (st_contains s v) eqn:E; [exact (conj Hw (conj Hv (conj Hp Hout)))|].
+  assert (Hn : ~ (In v (vs_values s) \/ in_ranges v (vs_ranges s))).
+  { intros H. apply st_contains_spec in H. rewrite H in E. discriminate. }
+  repeat split; cbn [vs_values vs_ranges]; try assumption; try apply Hp.
+  - constructor; [tauto|exact Hv].
+  - intros x [<-|Hx]; [tauto|apply Hout, Hx].
+Qed.
+
+Lemma add_range_inv s lo hi : lo <= hi -> inv s -> inv (add_range s lo hi).
+Proof.
+  intros Hle [Hw [Hv [Hp Hout]]]. pose proof (add_range_wf s lo hi Hle Hw) as Hw'.
+  unfold add_range in *. destruct (merge_pass (vs_ranges s) lo hi) as [[l h] kept] eqn:E.
+  destruct (merge_pass_kept _ _ _ _ _ _ E) as [Hsub Hnd].
+  destruct (merge_pass_wf _ _ _ _ _ _ E Hle Hw) as [Hlh Hkwf].
+  pose proof (merge_pass_apart _ _ _ _ _ _ E Hle Hw Hp) as Hap. rewrite Forall_forall in Hap.
+  assert (Hpk : pairwise_apart kept).
+  { split; [apply Hnd, Hp|]. intros r1 r2 H1 H2. apply Hp; apply Hsub; assumption. }
+  split; [exact Hw'|]. cbn [vs_values vs_ranges]. split; [apply NoDup_filter, Hv|]. split.
+  - unfold range_set_add. destruct (rmem (l, h) kept) eqn:Em; [exact Hpk|].
+    assert (Hnin : ~ In (l, h) kept) by (intros H; apply rmem_In in H; rewrite H in Em; discriminate).
+    split; [constructor; [exact Hnin|apply Hpk]|].
+    intros r1 r2 [<-|H1] [<-|H2] Hne.
+    + exfalso. apply Hne. reflexivity.
+    + apply no_overlap_sym, Hap, H2.
+    + apply Hap, H1.
+    + apply Hpk; assumption.
+  - intros v Hvin Hr. apply filter_In in Hvin. destruct Hvin as [Hvin Hnot].
+    apply range_set_add_sem in Hr. cbn [fst snd] in Hr.
+    pose proof (merge_pass_sem _ _ _ _ _ _ v E) as Hs.
+    assert (Hc : lo <= v <= hi \/ in_ranges v (vs_ranges s)) by (apply Hs; exact Hr).
+    destruct Hc as [Hc|Hc]; [lia|exact (Hout v Hvin Hc)].
+Qed.
+
+Lemma fold_add_value_inv l : forall s, inv s -> inv (fold_left add_value l s).
+Proof. induction l as [|x l IH]; intros s Hs; cbn [fold_left]; [exact Hs|apply IH, add_value_inv, Hs]. Qed.
+
+Lemma fold_add_range_inv l : forall s, Forall (fun r => fst r <= snd r) l -> inv s ->
+  inv (fold_left (fun s r => add_range s (fst r) (snd r)) l s).
+Proof.
+  induction l as [|r l IH]; intros s Hl Hs; cbn [fold_left]; [exact Hs|].
+  inversion Hl; subst. apply IH; [assumption|apply add_range_inv; assumption].
+Qed.
+
+Lemma inv_empty : inv vs_empty.
+Proof.
+  repeat split; cbn; try constructor.
+  - intros r1 r2 [].
+  - intros v [].
+Qed.
+
+Lemma st_union_inv a b : wf a -> wf b -> inv (st_union a b).
+Proof.
+  intros Ha Hb. unfold st_union.
+  apply fold_add_range_inv; [exact Hb|]. apply fold_add_range_inv; [exact Ha|].
+  apply fold_add_value_inv, fold_add_value_inv, inv_empty.
+Qed.
+
+Lemma inv_perm s s' : st_perm s s' -> inv s -> inv s'.
+Proof.
+  intros [Pv Pr] [Hw [Hv [[Hnd Hp] Hout]]]. repeat split.
+  - unfold wf in *. eapply Permutation_Forall; eassumption.
+  - eapply Permutation_NoDup; eassumption.
+  - eapply Permutation_NoDup; eassumption.
+  - intros r1 r2 H1 H2. apply Hp; (eapply Permutation_in; [apply Permutation_sym; eassumption|assumption]).
+  - intros v Hvin [r [Hr Hin]]. apply (Hout v).
+    + eapply Permutation_in; [apply Permutation_sym; eassumption|assumption].
+    + exists r. split; [eapply Permutation_in; [apply Permutation_sym; eassumption|assumption]|exact Hin].
+Qed.
+
+Theorem builds_inv e a : builds e a -> expr_wf e -> inv_vs a.
+Proof.
+  intros Hb. induction Hb as [| |e a x Hb IH|e a lo hi Hb IH|ea eb a b Ha IHa Hb IHb|e a a' Hb IH Hp];
+    cbn [expr_wf]; intros Hw.
+  - exact inv_empty.
+  - exact I.
+  - destruct a; cbn; [apply add_value_inv, IH, Hw|exact I].
+  - destruct a; cbn; [apply add_range_inv; [apply Hw|apply IH, Hw]|exact I].
+  - destruct a as [sa|], b as [sb|]; cbn; try exact I.
+    apply st_union_inv; [apply (IHa (proj1 Hw))|apply (IHb (proj2 Hw))].
+  - specialize (IH Hw). destruct Hp as [|s s' Hp]; [exact I|]. cbn in *. eapply inv_perm; eassumption.
+Qed.
+
+(* ---- iter_values ------------------------------------------------------------------- *)
+Lemma zrange_In n : forall lo v, In v (zrange lo n) <-> lo <= v < lo + Z.of_nat n.
+Proof.
+  induction n as [|n IH]; intros lo v; cbn [zrange In].
+  - lia.
+  - rewrite IH. lia.
+Qed.
+
+Theorem iter_values_sem s v : In v (st_iter_values s) <-> st_contains s v = true.
+Proof.
+  unfold st_iter_values. rewrite in_app_iff, in_flat_map, st_contains_spec. unfold in_ranges.
+  split; (intros [H|[r [Hr Hin]]]; [left; exact H|right; exists r; split; [exact Hr|]]).
+  - apply zrange_In in Hin. lia.
+  - apply zrange_In. lia.
+Qed.
+
